@@ -473,7 +473,7 @@ def _to_np_array(data):
 
 
 def _infer_dtype(data):
-    if data and isinstance(data[0], int):
+    if data and all(isinstance(value, int) for value in data):
         max_value = max(data)
         min_value = min(data)
         if max_value >= 2**63 and min_value >= 0:
